@@ -823,3 +823,129 @@ Check C01_statement_special_nobase : forall dbg hp hpo hd shp shs input sch R,
   | BOutOfFuel => False
   end.
 Print Assumptions C01_statement_special_nobase.
+
+(* ===== the proved classes assembled (task c01asm) ===== *)
+From RU Require Import Proofs.C01_EqAsm.
+
+(* in_proved_class3 = no base: opaque path | "scheme:/path" | "scheme://authority" (non-special) | special
+   non-file scheme;  base: '#' | '?' | empty reference | opaque-base failure | the three relative-reference
+   classes against a non-special base.  It contains in_proved_class2 (C01_class3_contains_class2).
+   ONE base relation: base_rel3 = no base on both sides, or a pair in good_base = `related` and spec_base_ok
+   (lower-case scheme, no '/' inside a path segment of the Standard's record).
+   ONE host hypothesis: host_hyp3 = on the one string class_host_query says the class applies a host
+   parser to, the model's host function of that kind and the Standard's host parser agree
+   (host_agree for isOpaque = true, host_agree_sp for isOpaque = false; nothing for the other classes).
+   Outcome agree_good: the Standard succeeds -> its record meets spec_base_ok again, and the model answers
+   Overflow with the Standard's href beyond u32::MAX bytes or succeeds with a `related` record - so a
+   successful pair of results is a good_base pair again and the theorem applies to its own results
+   (C01_partial3_chains);  the Standard fails -> the model returns Err. *)
+Theorem C01_class3_contains_class2 : forall sbase input,
+  in_proved_class2 sbase input = true -> in_proved_class3 sbase input = true.
+Proof. exact in_proved_class3_of2. Qed.
+Print Assumptions C01_class3_contains_class2.
+
+Theorem C01_partial_related3 : forall dbg hp hpo hd shp shs input base sbase,
+  usv_list input -> base_rel3 dbg shs base sbase -> in_proved_class3 sbase input = true ->
+  host_hyp3 hp hpo hd shp shs sbase input ->
+  agree_good dbg shs (parse_url dbg hp hpo hd None base input) (spec_basic_url_parse shp input sbase).
+Proof. exact partial_equivalence_good3. Qed.
+Check C01_partial_related3 : forall dbg hp hpo hd shp shs input base sbase,
+  usv_list input ->
+  match base, sbase with
+  | None, None => True
+  | Some b, Some sb => related dbg shs b sb /\ spec_base_ok sb = true
+  | _, _ => False
+  end ->
+  in_proved_class3 sbase input = true ->
+  match class_host_query sbase input with
+  | Some (true, s) => host_agree hpo hd shp shs s
+  | Some (false, s) => host_agree_sp hp hd shp shs s
+  | None => True
+  end ->
+  match spec_basic_url_parse shp input sbase with
+  | BDone su => spec_base_ok su = true
+                /\ ((parse_url dbg hp hpo hd None base input = PErr Overflow /\ U32_MAX_P < nlen (get_href shs su))
+                    \/ exists u, parse_url dbg hp hpo hd None base input = POk u /\ related dbg shs u su)
+  | BFailure _ => exists e, parse_url dbg hp hpo hd None base input = PErr e
+  | BOutOfFuel => False
+  end.
+Print Assumptions C01_partial_related3.
+
+(* a successful pair of results is a base pair of the theorem again *)
+Theorem C01_partial3_chains : forall dbg shs m su u,
+  agree_good dbg shs m (BDone su) -> m = POk u -> base_rel3 dbg shs (Some u) (Some su).
+Proof. exact agree_good_chain. Qed.
+Print Assumptions C01_partial3_chains.
+
+(* C01_statement restricted to in_proved_class3, in the form of C01_partial / C01_partial_strict *)
+Theorem C01_partial3 : forall dbg hp hpo hd shp shs input base sbase,
+  usv_list input -> base_rel3 dbg shs base sbase -> in_proved_class3 sbase input = true ->
+  host_hyp3 hp hpo hd shp shs sbase input ->
+  agree dbg shs (parse_url dbg hp hpo hd None base input) (spec_basic_url_parse shp input sbase).
+Proof. exact partial_equivalence3. Qed.
+Print Assumptions C01_partial3.
+
+Theorem C01_partial_strict3 : forall dbg hp hpo hd shp shs input base sbase,
+  usv_list input -> base_rel3 dbg shs base sbase -> in_proved_class3 sbase input = true ->
+  host_hyp3 hp hpo hd shp shs sbase input ->
+  agree_strict dbg shs (parse_url dbg hp hpo hd None base input) (spec_basic_url_parse shp input sbase).
+Proof. exact partial_equivalence_strict3. Qed.
+Check C01_partial_strict3 : forall dbg hp hpo hd shp shs input base sbase,
+  usv_list input -> base_rel3 dbg shs base sbase -> in_proved_class3 sbase input = true ->
+  host_hyp3 hp hpo hd shp shs sbase input ->
+  match spec_basic_url_parse shp input sbase with
+  | BDone su => (parse_url dbg hp hpo hd None base input = PErr Overflow /\ U32_MAX_P < nlen (get_href shs su))
+                \/ exists u, parse_url dbg hp hpo hd None base input = POk u
+                             /\ api_of_model dbg u = Some (spec_api_list shs su)
+  | BFailure _ => exists e, parse_url dbg hp hpo hd None base input = PErr e
+  | BOutOfFuel => False
+  end.
+Print Assumptions C01_partial_strict3.
+
+(* the same with a UTF-8 encoding override *)
+Theorem C01_partial_related3_utf8_override : forall dbg hp hpo hd shp shs input base sbase,
+  usv_list input -> base_rel3 dbg shs base sbase -> in_proved_class3 sbase input = true ->
+  host_hyp3 hp hpo hd shp shs sbase input ->
+  agree_good dbg shs (parse_url dbg hp hpo hd (Some utf8_encode) base input) (spec_basic_url_parse shp input sbase).
+Proof. exact partial_equivalence_good3_utf8. Qed.
+Print Assumptions C01_partial_related3_utf8_override.
+
+(* the host hypothesis holds for the host model as it is - Host::parse, Host::parse_opaque, Display
+   (Model/Host.v; property C09) - against the Standard's host parser and serializer
+   (Spec/WhatwgHostParse.v) with the same domain-to-ASCII oracle on both sides, on every scalar-value
+   input, as soon as the oracle's outputs are ASCII outside the deny list (first clause of IdnaOK) *)
+Theorem C01_host_hyp3_model : forall idna, (forall bs d, idna bs = Some d -> Forall dom_char_ok d) ->
+  forall sbase input, usv_list input ->
+  host_hyp3 (host_parse idna) host_parse_opaque host_display (spec_host_parser idna) spec_host_serializer sbase input.
+Proof. exact host_hyp3_model. Qed.
+Print Assumptions C01_host_hyp3_model.
+
+(* hence, for the parser model with the host model plugged in against the Standard's parser with the
+   Standard's host parser: C01_statement restricted to in_proved_class3 relative to IdnaOK idna ONLY
+   (C09_spec_host_parser / C09_spec_host_serializer say in addition that the Standard's host parser and
+   serializer ARE the host model read through host_to_spec / spec_of_host, relative to the same IdnaOK) *)
+Theorem C01_partial_model : forall dbg idna, IdnaOK idna -> forall input base sbase,
+  usv_list input -> base_rel3 dbg spec_host_serializer base sbase -> in_proved_class3 sbase input = true ->
+  agree_good dbg spec_host_serializer
+    (parse_url dbg (host_parse idna) host_parse_opaque host_display None base input)
+    (spec_basic_url_parse (spec_host_parser idna) input sbase).
+Proof. exact partial_model. Qed.
+Check C01_partial_model : forall dbg idna, IdnaOK idna -> forall input base sbase,
+  usv_list input -> base_rel3 dbg spec_host_serializer base sbase -> in_proved_class3 sbase input = true ->
+  let m := parse_url dbg (host_parse idna) host_parse_opaque host_display None base input in
+  match spec_basic_url_parse (spec_host_parser idna) input sbase with
+  | BDone su => spec_base_ok su = true
+                /\ ((m = PErr Overflow /\ U32_MAX_P < nlen (get_href spec_host_serializer su))
+                    \/ exists u, m = POk u /\ related dbg spec_host_serializer u su)
+  | BFailure _ => exists e, m = PErr e
+  | BOutOfFuel => False
+  end.
+Print Assumptions C01_partial_model.
+
+Theorem C01_partial_model_utf8_override : forall dbg idna, IdnaOK idna -> forall input base sbase,
+  usv_list input -> base_rel3 dbg spec_host_serializer base sbase -> in_proved_class3 sbase input = true ->
+  agree_good dbg spec_host_serializer
+    (parse_url dbg (host_parse idna) host_parse_opaque host_display (Some utf8_encode) base input)
+    (spec_basic_url_parse (spec_host_parser idna) input sbase).
+Proof. exact partial_model_utf8. Qed.
+Print Assumptions C01_partial_model_utf8_override.
